@@ -281,13 +281,47 @@ func fieldComp(t types.Type, fname string) string {
 	return "F." + typeKey(t) + "." + fname
 }
 
-func boxComp(s Sort) string   { return "Box." + sortKey(s) }
-func elemsComp(s Sort) string { return "Elems." + sortKey(s) }
-func mapDomComp(k, v Sort) string {
-	return "MapDom." + sortKey(k) + "." + sortKey(v)
+// Components are keyed by Go type (Go's type safety keeps differently typed cells apart); convertible types
+// (same underlying non-struct type) share a key.
+func compTypeKey(t types.Type) string {
+	t = types.Unalias(t)
+	switch u := t.(type) {
+	case *types.Named:
+		if _, isStruct := u.Underlying().(*types.Struct); isStruct {
+			return typeKey(u)
+		}
+		if _, isIface := u.Underlying().(*types.Interface); isIface {
+			return "iface"
+		}
+		return compTypeKey(u.Underlying())
+	case *types.Pointer:
+		return "*" + compTypeKey(u.Elem())
+	case *types.Slice:
+		return "[]" + compTypeKey(u.Elem())
+	case *types.Map:
+		return "map[" + compTypeKey(u.Key()) + "]" + compTypeKey(u.Elem())
+	case *types.Interface:
+		return "iface"
+	case *types.Signature:
+		return "func"
+	case *types.Chan:
+		return "chan"
+	case *types.Basic:
+		if u.Kind() == types.Uint8 {
+			return "byte"
+		}
+		return u.Name()
+	}
+	return typeKey(t)
 }
-func mapValComp(k, v Sort) string {
-	return "MapVal." + sortKey(k) + "." + sortKey(v)
+
+func boxComp(t types.Type) string   { return "Box." + compTypeKey(t) }
+func elemsComp(t types.Type) string { return "Elems." + compTypeKey(t) }
+func mapDomComp(mt *types.Map) string {
+	return "MapDom." + compTypeKey(mt.Key()) + "." + compTypeKey(mt.Elem())
+}
+func mapValComp(mt *types.Map) string {
+	return "MapVal." + compTypeKey(mt.Key()) + "." + compTypeKey(mt.Elem())
 }
 
 const mapLenComp = "MapLen"
